@@ -49,7 +49,12 @@ def plan(tier, seed):
     pairs = [list(p) for p in itertools.combinations(INJECTIONS, 2)]
     chunks = 10 if q else 20
     for k in range(chunks):
-        cases.append({"kind": "reject", "sets": [s for j, s in enumerate(singles + pairs) if j % chunks == k], "base": "template", "seed": [seed, 121, k], "env": {"VERIF_X64": "1"}})
+        cases.append({"kind": "reject", "sets": [s for j, s in enumerate(singles + pairs) if j % chunks == k], "base": ["mixed_discrete"], "seed": [seed, 121, k], "env": {"VERIF_X64": "1"}})
+    # every single rule violation also on structurally different bases (one period, two continuous
+    # choices + period dependence, stochastic restricted state)
+    for bi, base in enumerate([["mixed_discrete", "one_period"], ["two_cont_choices", "period_everywhere"], ["restricted_stochastic_state", "mixed_discrete"]]):
+        for k in range(2):
+            cases.append({"kind": "reject", "sets": [s for j, s in enumerate(singles) if j % 2 == k], "base": base, "seed": [seed, 127, bi, k], "env": {"VERIF_X64": "1"}})
     for i in range(8 if q else 60):
         trip = None
         cases.append({"kind": "reject_generated", "index": i, "seed": [seed, 122, i], "cfg": "quick", "n_sets": 10, "env": {"VERIF_X64": "1"}})
@@ -404,12 +409,12 @@ def run_case(case):
 
     kind = case["kind"]
     if kind == "reject":
-        base = lattice_desc(["mixed_discrete"], rng)
+        base = lattice_desc(case.get("base") or ["mixed_discrete"], rng)
         for names in case["sets"]:
             judge_invalid(base, names, res, add, rng)
-        res["sig"] = f"reject{case['seed']}"
+        res["sig"] = f"reject{case['seed']}{case.get('base')}"
         res["distinct"] = len(case["sets"])
-        res["sample"] = {"kind": "reject", "injection_sets": case["sets"][:6], "base": "template(w lin, h disc; c lin, d disc, e disc; filter)"}
+        res["sample"] = {"kind": "reject", "injection_sets": case["sets"][:6], "base": case.get("base")}
     elif kind == "reject_generated":
         desc, realised = pipeline.model_from_case({**case, "force": {"filters": True, "two_cont_states": False}})
         st = [s for s, sp in desc["states"]]
